@@ -283,7 +283,7 @@ def rule_hierarchy_predicate(ck, facts):
 
 def rule_context_bracket(ck, facts, R="C17.context"):
     """the module context of a function definition applies to its body only"""
-    ck.rule(R, "in the name resolver, the module context that a function definition installs (ResolveContext.current_module_context) is taken back before the continuation of the definition (the `then` part of LetRec) is resolved: a later top-level statement must not be resolved as if it were inside the preceding function's module")
+    ck.rule(R, "in the name resolver, the module context that a function definition installs (ResolveContext.current_module_context) is taken back before the continuation of the definition (the `then` part of LetRec) is resolved: a later top-level statement must not be resolved as if it were inside the preceding function's module; and the scope that holds the binder (opened by bind_*, closed by pop_scope) is still open when the continuation is resolved")
     lang = facts.crate(roles.LANG)
     fs = [f for f in lang.fns if f.short.endswith("convert_qualified_names::convert_expr") and f.kind == "fn"]
     ck.require(R, len(fs) == 1, "anchor|convert_expr", "resolver convert_expr not found")
@@ -309,11 +309,28 @@ def rule_context_bracket(ck, facts, R="C17.context"):
             paths = sx.paths
         touched = False
         bad = None
+        scope_bad = None
+        scope_seen = False
         for p in paths:
             if p.end != "return":
                 continue
             saved = None
             inside = False
+            # the binder's scope: opened by a bind_* call of the resolver, closed by pop_scope
+            bound = False
+            closed = False
+            for e in p.events:
+                if e[0] == "call":
+                    nm = e[1].split("::")[-1]
+                    if "ResolveContext" in e[1] and nm.startswith("bind_"):
+                        bound = True
+                        closed = False
+                    elif "ResolveContext" in e[1] and nm == "pop_scope" and bound:
+                        closed = True
+                    elif any(a == ("pay", v, cont) for a in e[2]) and bound:
+                        scope_seen = True
+                        if closed:
+                            scope_bad = e[3]
             for e in p.events:
                 if e[0] == "call" and e[1].endswith("mem::take") and FIELD in repr(e[2]):
                     saved = ("call", e[1], e[2])
@@ -325,6 +342,12 @@ def rule_context_bracket(ck, facts, R="C17.context"):
                 elif e[0] == "call" and ("('pay', '%s', %d)" % (v, cont)) in repr(e[2]):
                     if inside:
                         bad = e[3]
+        if scope_seen:
+            k2 = "binder-scope|%s" % v
+            if scope_bad is None:
+                ck.ok(R, k2, {"arm": v, "continuation": "resolved while the binder's scope is open"})
+            else:
+                ck.bad(R, k2, "convert_expr (arm %s) closes the scope that holds the binder (pop_scope) before it resolves the continuation: every later reference to the bound name is resolved as if the definition did not exist, so a name that is also importable (`use m::*`, an alias, a module sibling) is silently rewritten to the imported one — renaming the binder changes the meaning" % v, f.where(scope_bad))
         if not touched:
             continue
         n += 1
@@ -334,6 +357,46 @@ def rule_context_bracket(ck, facts, R="C17.context"):
         else:
             ck.bad(R, key, "convert_expr (arm %s) resolves the continuation of the definition while the module context installed for the function body is still in force: a global `let` after `mod m { fn secret() .. }` is resolved as if inside `m` (`m::secret()` passes the privacy check, bare `secret()` resolves to m$secret)" % v, f.where(bad))
     ck.floor(R, "context_brackets", n, 1)
+    # binders whose scope is opened inside a closure (the `Let` arm binds the pattern in the closure that resolves the
+    # continuation): there the recursive resolution must lie between bind_* and pop_scope
+    m = 0
+    for g in facts.family(roles.LANG, f.root):
+        if g.path == f.path or g.kind == "promoted":
+            continue
+        names = [(callee(t) or "") for _, t in g.calls()]
+        if not (any("ResolveContext" in c and c.split("::")[-1].startswith("bind_") for c in names) and any(c.endswith("ResolveContext::pop_scope") or c.split("::")[-1] == "pop_scope" for c in names)):
+            continue
+        sx = SymEx(g, max_paths=64, max_steps=6000, facts=facts)
+        try:
+            paths = sx.run(0)
+        except PathLimit:
+            paths = sx.paths
+        badc = None
+        seen = False
+        for p in paths:
+            if p.end != "return":
+                continue
+            bound = closed = False
+            for e in p.events:
+                if e[0] != "call":
+                    continue
+                nm = e[1].split("::")[-1]
+                if "ResolveContext" in e[1] and nm.startswith("bind_"):
+                    bound, closed = True, False
+                elif nm == "pop_scope" and bound:
+                    closed = True
+                elif e[1] == f.path and bound:
+                    seen = True
+                    if closed:
+                        badc = e[3]
+        if seen:
+            m += 1
+            k2 = "binder-scope|%s" % g.short.split("::")[-1]
+            if badc is None:
+                ck.ok(R, k2, {"closure": g.short, "continuation": "resolved while the binder's scope is open"})
+            else:
+                ck.bad(R, k2, "%s closes the scope that holds the bound names (pop_scope) before it resolves the expression they are bound for: references to them are resolved as if the binding did not exist" % g.short, g.where(badc))
+    ck.setcount("binder_scope_closures", m)
 
 
 def run(ck, facts, tier):
